@@ -381,3 +381,64 @@ pub fn run_trie(prop: &str, checks: u32, prefix_text: &str, max_depth: usize, la
         .reduce(Stats::default, Stats::merge);
     FamilyResult { explorer: "E3".into(), family, complete: !report::stopped(), note: String::new(), stats, wall_s: t0.elapsed().as_secs_f64() }
 }
+
+/// All 5,040 distinct orders of Gold's eight non-rabbit pieces (e m h h d d c c) on a2..h2, rabbits on a1..h1.
+pub fn gold_major_orders() -> Vec<String> {
+    fn rec(left: &mut [u8; 5], cur: &mut String, out: &mut Vec<String>) {
+        if cur.len() == 8 {
+            out.push(format!("{}rrrrrrrr", cur));
+            return;
+        }
+        let letters = ['c', 'd', 'h', 'm', 'e'];
+        for i in 0..5 {
+            if left[i] > 0 {
+                left[i] -= 1;
+                cur.push(letters[i]);
+                rec(left, cur, out);
+                cur.pop();
+                left[i] += 1;
+            }
+        }
+    }
+    let mut out = vec![];
+    rec(&mut [2, 2, 2, 1, 1], &mut String::new(), &mut out);
+    out
+}
+
+/// Cross-dependence of the two set-ups: after EVERY one of the 5,040 major-piece orders of Gold, every Silver prefix
+/// of length <= depth (the Silver phase must not read Gold's arrangement).
+pub fn run_product(prop: &str, checks: u32, depth: usize) -> FamilyResult {
+    let t0 = Instant::now();
+    let orders = gold_major_orders();
+    let family = format!("E3 product: all {} orders of Gold's major pieces on a2..h2 (rabbits behind) x every Silver placement prefix of length <= {}", orders.len(), depth);
+    let fam2 = family.clone();
+    let stats = orders
+        .par_iter()
+        .enumerate()
+        .fold(Stats::default, |acc, (i, order)| {
+            if report::stopped() {
+                return acc;
+            }
+            let prefix: Vec<Action> = order.chars().map(|c| c.to_string().parse::<Action>().unwrap()).collect();
+            let mut ctx = E3Ctx { prop, checks, family: fam2.clone(), prefix: prefix.clone(), path: vec![], query: "", stats: Stats::default(), max_depth: depth, job: i as u64 };
+            let r = catch_unwind(AssertUnwindSafe(|| {
+                let mut gs = GameState::initial();
+                for a in prefix.iter() {
+                    gs = gs.take_action(a);
+                }
+                let mut left = COMPLEMENT;
+                node(&mut ctx, &gs, false, 0, &mut left, 0);
+            }));
+            if r.is_err() {
+                let q = ctx.query;
+                ctx.fail(None, &format!("panic in the engine during `{}` in setup", q), last_panic(), "returns normally".into());
+            }
+            ctx.stats.roots = 1;
+            if i == 0 {
+                ctx.stats.sample(0, format!("Gold order {} then every Silver prefix of length <= {}", order, depth));
+            }
+            acc.merge(ctx.stats)
+        })
+        .reduce(Stats::default, Stats::merge);
+    FamilyResult { explorer: "E3".into(), family, complete: !report::stopped(), note: String::new(), stats, wall_s: t0.elapsed().as_secs_f64() }
+}
